@@ -1,7 +1,7 @@
 #!/bin/sh
 # Builds the check driver and warms the go1.26.8 build cache for the simulation binary (offline).
 set -e
-cd /verif
+cd "$(dirname "$(readlink -f "$0")")"
 export GOFLAGS=-mod=mod GOPROXY=off GOSUMDB=off GOTOOLCHAIN=local
 GO=/opt/veriftools/go1.26.8/bin/go
 mkdir -p bin evidence replays
